@@ -331,7 +331,7 @@ def h_failover(e1: int, e2: int, e3: int, e4: int, e5: int, e6: int,
 def shards(tier):
     out = []
     thorough = tier == "thorough"
-    T = 1200 if thorough else 500
+    T = 900 if thorough else 500
     firsts2 = (0, 1, 2, 3, 5)      # "server stops failing" as first event is pruned anyway
     for ra in (0, 1, 2):
         for ign in (False, True):
@@ -339,8 +339,9 @@ def shards(tier):
                 if not thorough and (kind == "timeout" and (ra != 2 or ign) or kind == "protocol" and (ra != 1 or ign)):
                     continue
                 for first in firsts2:
+                    deep = thorough and kind == "refused" and not ign
                     out.append(dict(fn="h_failover", timeout=T, shard=dict(ns=2, ra=ra, ignore_exc=ign, kind=kind,
-                                                                           depth=4 if thorough else 3, first=first, dtmax=3)))
+                                                                           depth=4 if deep else 3, first=first, dtmax=3)))
     # deeper histories over a reduced alphabet: server 0 starts failing, then only traffic (get k0 / get k1 / set_many)
     for ra in ((0, 1, 2) if thorough else (1, 2)):     # retry_attempts=0 evicts at once: covered by the 3-event shards
         for ign in (False, True):
@@ -406,7 +407,7 @@ BOUNDS = {
              "(server_key, key) pairs on 2 servers, and on 3 servers for `server 0 fails, then gets routed by the keys of "
              "servers 0 and 1` (4-5 events); every get must query placement with its routing key only and contact the "
              "server placement named",
-    "thorough": "4 events over the full alphabet (all retry_attempts x ignore_exc x error kinds), 6 over the reduced ones; 3 "
+    "thorough": "all retry_attempts x ignore_exc x error kinds at 3 events, 4 events over the full alphabet for ConnectionRefusedError without ignore_exc, 6 over the reduced ones; 3 "
                 "servers with 4 events; pair histories one event longer (5 events over the full alphabet did not exhaust in "
                 "2400 CPU-seconds per shard and was dropped)",
 }
